@@ -60,7 +60,10 @@ CHECKS["C01"] = dict(
           "trust and lies inside the bounds, and a feasible kernel passes unchanged; finalize is applied to an "
           "ARBITRARY kernel, so iteration counts and other families configured alongside are covered. Guards: the "
           "documented exception (trapezoid only) and known finding D1 (monotone conditional feature of a trapezoid "
-          "trust with Edgeworth present), for which C01_refuted_trap_mono_cond exhibits the witness. The model is "
+          "trust with Edgeworth present), for which C01_refuted_trap_mono_cond exhibits the witness; D1 is narrowed "
+          "to what it can disturb: without any D1 guard the result is monotone along every monotone dimension that "
+          "is not the conditional feature of a trapezoid trust, and a monotonicity failure implies such a dimension "
+          "(C01_monotone_failure_only_along_trapezoid_conditional). The model is "
           "compared in Coq with finalize_constraints / LatticeConstraints on float64 kernels on every run."),
     note="Models: Model/LatticeFinalize.v; the Dykstra stage's real output is an input of the model (its own model "
          "and theorems are under C08). Open known finding D1 is listed in known_findings.json.",
@@ -119,7 +122,9 @@ CHECKS["C18"] = dict(
 CHECKS["C04"] = dict(
     text=("Theorems (Props/C04.v) about the Gallina model of pwl_calibration_lib.project_all_constraints, per unit, "
           "every positive spacing, every iteration count: heights have the configured sign exactly, keypoint outputs "
-          "within bounds (guard: not monotone+convex, known finding D2 with refuted witness), convexity of slopes, "
+          "within bounds (guard: not monotone+convex, known finding D2 with refuted witness; D2 characterised exactly: "
+          "for monotone+convex the bounds hold whenever the bias entering the final squeeze has room > 0.001 to the "
+          "far bound, and a bounds failure implies no room - C04_bounds_unless_squeeze_has_no_room), convexity of slopes, "
           "clamped ends hit exactly for >= 1 iteration (Dykstra invariant proved; D3 refuted witness for 0 "
           "iterations), missing output clipped, feasible kernels unchanged, per-unit. Model compared in Coq with "
           "PWLCalibrationConstraints / layer.kernel.constraint on every run."),
